@@ -296,6 +296,39 @@ theorem loopSlice_eq_goRange {M V : Type} (read : M → Nat → Option V) (body 
   have h := loopSlice_from read body n n 0 m 0 (by omega)
   simpa [newSliceIter] using h
 
+/-- Go's `for i, v := range a` over an ARRAY value `a` (two iteration variables): the range expression is
+    evaluated once and COPIED, so `v` is read from the array as it was when the loop started (`m0`), whatever
+    the body writes meanwhile -/
+def goRangeArray {M V : Type} (read : M → Nat → Option V) (body : Nat → Option (Nat × V) → M → M × Bool) (m0 : M) :
+    Nat → Nat → M → Nat → M × Nat
+  | 0, _, m, p => (m, p + 1)
+  | k+1, i, m, p =>
+    match body i ((read m0 i).map (fun v => (i, v))) m with
+    | (m', true) => (m', p + 1)
+    | (m', false) => goRangeArray read body m0 k (i+1) m' (p + 1)
+
+/-- if the body never changes what `read` returns (no write to the array), copy and alias agree -/
+theorem goRangeArray_eq_slice_of_readonly {M V : Type} (read : M → Nat → Option V)
+    (body : Nat → Option (Nat × V) → M → M × Bool) (m0 : M)
+    (hro : ∀ j e m, read (body j e m).1 = read m) :
+    ∀ (k i : Nat) (m : M) (p : Nat), read m = read m0 →
+      goRangeArray read body m0 k i m p = goRangeSlice read body k i m p := by
+  intro k; induction k with
+  | zero => intro i m p _; rfl
+  | succ k ih =>
+    intro i m p h
+    simp only [goRangeArray, goRangeSlice, h]
+    have h2 := hro i (Option.map (fun v => (i, v)) (read m0 i)) m
+    cases hb : body i (Option.map (fun v => (i, v)) (read m0 i)) m with
+    | mk m' b =>
+      cases b with
+      | true => rfl
+      | false =>
+        simp only
+        apply ih
+        rw [hb] at h2
+        exact h2.trans h
+
 /-! #### the mutation scripts of correspondence K3 as a memory: the iterator's backing array, the program's
     own slice variable (length, whether it still points to that array) -/
 
